@@ -107,6 +107,10 @@ def _arg_variants(case):
                                  "flat": [x for r in st["rows"] for x in r],
                                  "lengths": [len(r) for r in st["rows"]]}
             yield new
+        if st["op"] == "new_flat" and st.get("via"):
+            new = copy.deepcopy(case)
+            del new["program"][i]["via"]
+            yield new
         if st["op"] == "new_flat" and st["lengths"]:
             # drop one row (and the matching element of boolean row masks applied directly to this array)
             lens = st["lengths"]
@@ -201,6 +205,9 @@ def minimise(case, budget=1500):
         for name in ("b", "a"):
             k = 0
             while k < len(best[name]["schedule"]["acts"]):
+                if best[name]["schedule"]["acts"][k][1]["k"] == "ballast":
+                    k += 1      # environment, not shrinkable: the process doing the shrinking may itself be "long-lived"
+                    continue
                 cand = copy.deepcopy(best)
                 del cand[name]["schedule"]["acts"][k]
                 dd = ok(cand)
